@@ -371,7 +371,7 @@ func tryReplay(prog *Program, res *FuncResult, ob *Oblig, repo string, overlayEd
 		out.Reason = "not a named function"
 		return out
 	}
-	isSafety := safetyKinds[ob.kind]
+	isSafety := safetyKinds[ob.kind] || ob.replayPanic
 	if !isSafety && ob.kind != "post" {
 		out.Reason = "obligation kind " + ob.kind + " has no direct replay (intermediate assertion)"
 		return out
